@@ -19,7 +19,8 @@ LEVEL_TEXT = ("bad_enabler_no_effect, failed_test_no_effect, reads_are_pre_state
 LEVEL_NOTE = ("Lean kernel + standard axioms; model hand-written, tied by correspondence incl. raw bytes; dict iteration "
               "modelled as association lists; offsets non-negative; NoSpace/struct.error of the lease renewal that FOLLOWS "
               "the writes is outside the all-or-nothing claim about writes (all writes are applied in that case).")
-RULE = ("random multi-share read-test-write requests (1..4 shares, existing and new, shares fabricated under other enablers, wrong "
+RULE = ("random multi-share read-test-write requests (1..4 shares, existing and new, buckets holding shares under 2..3 different write enablers "
+        "(share files fabricated into the bucket at the start or mid-history), requests using each enabler present and wrong ones, "
         "enablers, failing tests, oversized vectors, deletions) in seeded histories on a real StorageServer; a case is one request; "
         "distinct = distinct (history index, op index); non-trivial = the bucket holds at least one share before the request")
 TRUSTED = ["lean/Tahoe/Storage/Slot.lean is a hand transcription of storage/server.py slot_testv_and_readv_and_writev and helpers"]
@@ -28,9 +29,10 @@ ASSUMPTIONS = ["offsets, lengths, new_length are non-negative ints; the only tes
 
 WE = hx(b"W" * 32)
 WE2 = hx(b"V" * 32)
+WE3 = hx(b"U" * 32)
 
 
-def gen_request(rng, ref, now, far, p_big):
+def gen_request(rng, ref, now, far, p_big, present=()):
     """ref: {sharenum: bytes} generator-side estimate of current contents"""
     pool = [0, 1, 2, 3, 5]
     named = rng.sample(pool, rng.randrange(1, 5))
@@ -56,8 +58,19 @@ def gen_request(rng, ref, now, far, p_big):
         nl = None if rr < 0.6 else (0 if rr < 0.7 else rng.randrange(0, len(cur) + 30))
         tw.append([n, testv, datav, nl])
     rv = sc.rand_rv(rng, max([len(v) for v in ref.values()] + [0]), far)
+    # the request's write enabler: mostly one of the enablers present on existing shares (each of them in turn,
+    # so that on a bucket with shares under DIFFERENT enablers it matches some shares but not all), sometimes the
+    # usual one, sometimes one that matches nothing
     rr = rng.random()
-    we = WE if rr < 0.93 else (WE2 if rr < 0.98 else hx(b"short"))
+    present = sorted(present)
+    if present and rr < 0.7:
+        we = rng.choice(present)
+    elif rr < 0.88:
+        we = WE
+    elif rr < 0.97:
+        we = rng.choice([WE2, WE3])
+    else:
+        we = hx(b"short")
     s = rng.randrange(3)
     return ["rtw", now, rng.choice([10 ** 12, 10 ** 12, 50, 0]), we, hx(bytes([0x40 + s]) * 32), hx(bytes([0x80 + s]) * 32),
             rng.random() < 0.6, tw, rv]
@@ -121,12 +134,24 @@ class Monitor:
             want[n] = bytes(a)
         unchanged = raw1 == raw0
         if bad_enabler:
-            ctx.count("case:bad-enabler")
+            # "applies none if the write enabler does not match EVERY existing share of that storage index":
+            # the request must be refused, nothing on disk may change and no share data may be returned
+            ens = self.enablers(raw0)
+            some_match = any(e == unhx(we) for e in ens.values())
+            cls = "matches-some-not-all" if some_match else "matches-none"
+            ctx.count("case:bad-enabler:" + cls)
+            if len(set(ens.values())) > 1:
+                ctx.count("case:bucket-with-%d-enablers" % len(set(ens.values())))
             if exc is None or type(exc).__name__ != "BadWriteEnablerError":
-                self.viol("request with a write enabler that does not match every existing share was not refused",
-                          "bad-enabler-accepted", {"result": repr(info.get("result"))[:200]})
+                leaked = sorted(n for n, ds in (info["result"][1].items() if exc is None else []) if ens.get(n) != unhx(we))
+                self.viol("a request whose write enabler does not match every existing share was not refused",
+                          "bad-enabler-accepted:" + cls,
+                          {"enabler_mismatch_shares": sorted(n for n, e in ens.items() if e != unhx(we)),
+                           "data_returned_for_mismatching_shares": leaked, "raised": type(exc).__name__ if exc else None})
             if not unchanged:
-                self.viol("request with a bad write enabler changed share files", "bad-enabler-changed-files", None)
+                touched = sorted(n for n in set(raw0) | set(raw1) if raw0.get(n) != raw1.get(n))
+                self.viol("a request whose write enabler does not match every existing share changed share files",
+                          "bad-enabler-changed-files:" + cls, {"files_changed": touched})
         elif exc is None:
             good, reads = info["result"]
             if bool(good) != want_good:
@@ -174,6 +199,22 @@ def corpus_partial_write():
         ["readv", [], [[0, 10]]], ["dump"]]}
 
 
+def corpus_mixed_enablers():
+    """two shares recorded under different write enablers; requests with each of them (so that, whatever the
+    directory listing order, one request matches the first-listed share only), then with a third one"""
+    s1, s2 = hx(b"\x41" * 32), hx(b"\x81" * 32)
+    ref, enab = {}, {}
+    import random
+    rng = random.Random(24)
+    ops = [fab_put(rng, 0, WE, ref, enab), fab_put(rng, 3, WE2, ref, enab), ["dump"]]
+    for i, we in enumerate([WE, WE2, WE3, WE2, WE]):
+        tw = [[[0, [], [[0, hx(b"AAAA")]], 2]], [[3, [], [[1, hx(b"BB")]], None], [1, [], [[0, hx(b"new")]], None]],
+              [[0, [], [], 0], [3, [], [], 0]], [[5, [], [[0, hx(b"n")]], None]], [[3, [], [], 0]]][i]
+        ops += [["rtw", 10 + i, 10 ** 12, we, s1, s2, i % 2 == 0, tw, [[0, 50]]], ["dump"]]
+    ops += [["readv", [], [[0, 100]]], ["leases"]]
+    return {"nodeid": hx(sc.NODEID), "ops": ops}
+
+
 def run(ctx):
     impl = sc.Impl()
     try:
@@ -182,12 +223,14 @@ def run(ctx):
             hists = [ctx.replay["case"]["history"]]
         else:
             hists.append(corpus_partial_write())
+            hists.append(corpus_mixed_enablers())
             n = ctx.budget(100, 5000)
             for i in range(n):
                 hists.append(gen_full_history(ctx.rng, ctx.rng.choice([3, 8, 20]), ctx.rng.choice([2000, 2000, 30000]),
                                               ctx.rng.choice([0.0, 0.0, 0.03, 0.15])))
         impl_outs, lines = [], []
         for hi, h in enumerate(hists):
+            ctx.count("mode:" + h.get("mode", "corpus"))
             out, line = sc.run_history(impl, h, Monitor(ctx, h, hi))
             impl_outs.append(out)
             lines.append(line)
@@ -199,25 +242,52 @@ def run(ctx):
         impl.close()
 
 
+def fab_put(rng, n, e, ref, enab):
+    """a container file fabricated under write enabler `e` (a share file migrated / copied into the bucket)"""
+    data = sc.rand_bytes(rng, rng.randrange(0, 40))
+    body = sc.fabricate_mutable(rng.choice([1, 2]), sc.NODEID, unhx(e), data,
+                                [(1, 5000 + i, bytes([0x61 + i]) * 32, bytes([0x71 + i]) * 32) for i in range(rng.randrange(0, 8))],
+                                extra_gap=rng.choice([0, 0, 17]))
+    ref[n] = data
+    enab[n] = e
+    return ["put", n, sc.rle(body)]
+
+
 def gen_full_history(rng, nops, far, p_big):
-    """Requests are generated against a byte-array estimate of the contents kept by the generator."""
+    """Requests are generated against a byte-array estimate of the contents kept by the generator.
+    About half of the histories hold, at some point, shares recorded under 2..3 DIFFERENT write enablers
+    (fabricated files put into the bucket directory at the start or in the middle of the history)."""
     ops = []
     ref = {}
     enab = {}
     now = rng.randrange(1000)
-    if rng.random() < 0.3:
-        n = rng.choice([0, 1, 4])
-        e = rng.choice([WE, WE, WE2])
-        data = sc.rand_bytes(rng, rng.randrange(0, 40))
-        body = sc.fabricate_mutable(rng.choice([1, 2]), sc.NODEID, unhx(e), data,
-                                    [(1, 5000 + i, bytes([0x61 + i]) * 32, bytes([0x71 + i]) * 32) for i in range(rng.randrange(0, 8))],
-                                    extra_gap=rng.choice([0, 0, 17]))
-        ops.append(["put", n, sc.rle(body)])
-        ref[n] = data
-        enab[n] = e
-    for _ in range(nops):
+    mode = rng.choice(["plain", "plain", "single", "mixed-start", "mixed-start", "mixed-mid", "mixed-mid"])
+    if mode == "single":
+        ops.append(fab_put(rng, rng.choice([0, 1, 4]), rng.choice([WE, WE, WE2]), ref, enab))
+    elif mode == "mixed-start":
+        nums = rng.sample([0, 1, 2, 3, 4, 5], rng.choice([2, 2, 3]))
+        es = [WE, WE2, WE3]
+        rng.shuffle(es)
+        for k, n in enumerate(nums):
+            e = es[k] if k < 2 else rng.choice(es)          # at least two different enablers
+            ops.append(fab_put(rng, n, e, ref, enab))
+    mid = rng.randrange(1, max(2, nops)) if mode == "mixed-mid" else None
+    heal = rng.random() < 0.4
+    for k in range(nops):
         now += rng.choice([0, 1, 100])
-        op = gen_request(rng, ref, now, far, p_big)
+        if mid is not None and k == mid:
+            # a share file under another enabler appears (new share number or replacing an existing share)
+            others = [e for e in (WE, WE2, WE3) if e not in set(enab.values())] or [WE2]
+            n = rng.choice(sorted(ref) + [4, 5]) if ref and rng.random() < 0.4 else rng.choice([4, 5, 2])
+            ops.append(fab_put(rng, n, rng.choice(others), ref, enab))
+            ops.append(["dump"])
+        if heal and len(set(enab.values())) > 1 and rng.random() < 0.15:
+            # the foreign shares are rewritten under one enabler: the bucket is uniform again
+            e = rng.choice(sorted(set(enab.values())))
+            for n in sorted(enab):
+                if enab[n] != e:
+                    ops.append(fab_put(rng, n, e, ref, enab))
+        op = gen_request(rng, ref, now, far, p_big, present=set(enab.values()))
         ops.append(op)
         (_, _, _, we, _, _, _, tw, _) = op
         ok = all(e == we for e in enab.values()) and \
@@ -243,4 +313,4 @@ def gen_full_history(rng, nops, far, p_big):
         if rng.random() < 0.2:
             ops.append(["leases"])
     ops += [["readv", [], [[0, 10 ** 9]]], ["leases"], ["dump"]]
-    return {"nodeid": hx(sc.NODEID), "ops": ops}
+    return {"nodeid": hx(sc.NODEID), "ops": ops, "mode": mode}
